@@ -1083,6 +1083,7 @@ class OdeSystem(object):
                             total_steps = self.__alloc_space_steps(tf - dTime) + 1 + len(roots)
                             self.__allocate_soln_space(total_steps)
 
+                        __num_events = len(self.__events)
                         for ev_idx, root, ev in zip(active_events, roots, evs):
                             if dTime >= 0:
                                 true_positive = (self.__t[self.counter] <= root) & (root <= prev_time + dTime)
@@ -1102,7 +1103,15 @@ class OdeSystem(object):
                             for _ in range(len(self.__sol) - __pre_length):
                                 self.__sol.remove_interpolant(-1 if dTime >= 0 else 0)
                             self.initialise_integrator(preserve_states=True)
-                            self.integrate(roots[-1])
+                            try:
+                                self.integrate(roots[-1])
+                            except BaseException:
+                                # the walk to the root stopped short: events of the abandoned step that lie beyond what has been recorded
+                                # are not part of the prefix (a later call finds them again)
+                                __t_end = self.__t[self.counter]
+                                self.__events = self.__events[:__num_events] + [__ev for __ev in self.__events[__num_events:]
+                                                                                 if (__ev.t - __t_end) * (1 if dTime >= 0 else -1) <= 0]
+                                raise
                             self.__int_status = 2
                         else:
                             if self.counter + len(roots) + 1 >= len(self.__y):
@@ -1139,6 +1148,9 @@ class OdeSystem(object):
             self.initialise_integrator(preserve_states=True)
             raise e
         except Exception as e:
+            if isinstance(e, etypes.FailedIntegration) and e is self.__int_status:
+                # the nested walk to a terminal event has already reported this failure, with its cause
+                raise
             new_e = etypes.FailedIntegration("Failed to integrate system")
             new_e.__cause__ = e
             self.__int_status = new_e
